@@ -176,6 +176,10 @@ def possible_types(name: str) -> Set[str]:
     for count in range(label_count):
         parts = labels[label_count - count - 4 :]
         if not parts[0].startswith('_'):
+            if len(parts) > 1 and parts[1] == '_sub':
+                # A subtype label is an arbitrary string, it need not
+                # start with an underscore (RFC 6763 section 7.1)
+                types.add('.'.join(parts))
             break
         types.add('.'.join(parts))
     return types
